@@ -520,66 +520,6 @@ theorem phase3_seg (d : Disk) (h : Clean d) (o : Opts) (d' : Disk) (s : State) (
 
 /-! ## `RemoveAll` orders that unlink the metadata first -/
 
-theorem tablesGet_upd_hidden (g : Nat) (J : Layer) (k : Key) (hJ : Layer.get J k = none) (ts : List (Nat × TableDir))
-    (hp : ∀ p ∈ ts, p.1 = g → isComplete p.2 = false) :
-    tablesGet (tblsOf (updT g (fun _ => TableDir.complete J) ts)) k = tablesGet (tblsOf ts) k := by
-  induction ts with
-  | nil => rfl
-  | cons p r ih =>
-    have ih := ih (fun q hq => hp q (List.mem_cons_of_mem _ hq))
-    have hc : updT g (fun _ => TableDir.complete J) (p :: r) =
-        (if p.1 == g then (p.1, TableDir.complete J) else p) :: updT g (fun _ => TableDir.complete J) r := rfl
-    rw [hc]
-    obtain ⟨g', t⟩ := p
-    by_cases hg : g' = g
-    · have hb : (g' == g) = true := by simpa using hg
-      have := hp (g', t) List.mem_cons_self hg
-      simp only [hb, if_true]
-      cases t with
-      | complete c => cases this
-      | part b =>
-        rw [tblsOf_cons_complete, tblsOf_cons_part, tablesGet_cons, ih]
-        show (tablesGet (tblsOf r) k).or (Layer.get J k) = _
-        rw [hJ]; simp
-    · have hb : (g' == g) = false := by simpa using hg
-      simp only [hb, Bool.false_eq_true, if_false]
-      cases t with
-      | complete c => rw [tblsOf_cons_complete, tblsOf_cons_complete, tablesGet_cons, tablesGet_cons, ih]
-      | part b => rw [tblsOf_cons_part, tblsOf_cons_part, ih]
-
-/-- an unfinished directory (no compaction directories around) that is seen to load as a legacy table showing logged
-keys only: still a good disk -/
-theorem hidden_good (x : Disk) (h : DiskOk x) (hc : x.comps = []) (g : Nat) (hg : (g, TableDir.part false) ∈ x.tables)
-    (j : Layer) :
-    Good3 x { x with tables := updT g (fun _ => .complete (restrictTo (applyMuts [] (walMuts x.wal)) j)) x.tables } := by
-  refine ⟨?_, ?_⟩
-  · refine { h with tblSorted := ?_, covered := ?_ }
-    · simp only [keys_updT]; exact h.tblSorted
-    · intro p hp hpm
-      have hp : p ∈ updT g (fun _ => .complete (restrictTo (applyMuts [] (walMuts x.wal)) j)) x.tables := hp
-      obtain ⟨q, hq, rfl⟩ := List.mem_map.1 hp
-      by_cases hid : q.1 = g
-      · have : (q.1 == g) = true := by simpa using hid
-        simp only [this, if_true] at hpm
-        cases hpm
-      · have : (q.1 == g) = false := by simpa using hid
-        simp only [this] at hpm ⊢
-        exact h.covered q hq hpm
-  · funext k
-    simp only [logical_eq, effTables, phase1, hc, List.foldl_nil]
-    unfold rd
-    cases hm : Layer.get (applyMuts [] (walMuts x.wal)) k with
-    | some v => cases v <;> rfl
-    | none =>
-      have hJ : Layer.get (restrictTo (applyMuts [] (walMuts x.wal)) j) k = none := by
-        cases hj : Layer.get (restrictTo (applyMuts [] (walMuts x.wal)) j) k with
-        | none => rfl
-        | some y => exact absurd hm (restrict_get _ j k (by rw [hj]; simp))
-      simp only
-      rw [tablesGet_upd_hidden g _ k hJ x.tables]
-      intro p hp hpg
-      rw [entry_unique h.tblSorted hg p hp hpg]; rfl
-
 /-- the extra states of `detour` are good, and the detour ends where the plain sequence ends -/
 theorem detour_run (junk : List (Nat × Layer)) (f : Nat) : ∀ (d : Disk), DiskOk d →
     applyEvs d (detour junk d (cleanRun f d)) = applyEvs d (cleanRun f d) ∧
@@ -650,15 +590,14 @@ theorem detour_run (junk : List (Nat × Layer)) (f : Nat) : ∀ (d : Disk), Disk
             exact ⟨a1, logical_of_norm a2⟩
           cases t with
           | complete cells =>
-            have hfor : detourFor junk d (rmTblEv g (.complete cells)) = detourPre junk d g := rfl
+            have hfor : detourFor junk (rmTblEv g (.complete cells)) = detourPre junk g := rfl
             rw [hfor]
             cases hj : lookupJ junk g with
             | none =>
-              have hpre : detourPre junk d g = [] := by unfold detourPre; rw [hj]
+              have hpre : detourPre junk g = [] := by unfold detourPre; rw [hj]
               rw [hpre]; exact hplain _ rfl
             | some j =>
-              have hpre : detourPre junk d g =
-                  [.tblLoadable g (if d.comps.isEmpty then restrictTo (applyMuts [] (walMuts d.wal)) j else j)] := by
+              have hpre : detourPre junk g = [.tblLoadable g j] := by
                 unfold detourPre; rw [hj]
               rw [hpre]
               refine hins g _ (hgoodJ _) ?_
@@ -672,39 +611,10 @@ theorem detour_run (junk : List (Nat × Layer)) (f : Nat) : ∀ (d : Disk), Disk
           | part b =>
             cases b with
             | true => exact hplain _ rfl
-            | false =>
-              have hfor : detourFor junk d (rmTblEv g (.part false)) = detourPre junk d g := rfl
-              rw [hfor]
-              cases hj : lookupJ junk g with
-              | none =>
-                have hpre : detourPre junk d g = [] := by unfold detourPre; rw [hj]
-                rw [hpre]; exact hplain _ rfl
-              | some j =>
-                have hpre : detourPre junk d g =
-                    [.tblLoadable g (if d.comps.isEmpty then restrictTo (applyMuts [] (walMuts d.wal)) j else j)] := by
-                  unfold detourPre; rw [hj]
-                rw [hpre]
-                refine hins g _ (hgoodJ _) ?_
-                show ({ d with tables := eraseT g (updT g (fun _ => .complete _) d.tables) } : Disk) =
-                  { d with tables := eraseT g d.tables }
-                rw [eraseT_updT']
+            | false => exact hplain _ rfl
         · exact hplain _ rfl
-      · -- an unfinished table
-        have hfor : detourFor junk d (.tblRmdir g) = detourPre junk d g := rfl
-        rw [hfor]
-        cases hj : lookupJ junk g with
-        | none =>
-          have hpre : detourPre junk d g = [] := by unfold detourPre; rw [hj]
-          rw [hpre]; exact hplain _ rfl
-        | some j =>
-          have hce : d.comps.isEmpty = true := by rw [hcs]; rfl
-          have hpre : detourPre junk d g = [.tblLoadable g (restrictTo (applyMuts [] (walMuts d.wal)) j)] := by
-            unfold detourPre; rw [hj]; simp only [hce, if_true]
-          rw [hpre]
-          refine hins g _ (hidden_good d h hcs g hg j) ?_
-          show ({ d with tables := eraseT g (updT g (fun _ => .complete _) d.tables) } : Disk) =
-            { d with tables := eraseT g d.tables }
-          rw [eraseT_updT']
+      · -- an unfinished table: index.rio first, nothing on the way loads
+        exact hplain _ rfl
 
 /-! ## the whole recovery, interrupted anywhere -/
 
